@@ -177,8 +177,10 @@ class Not(Matcher):
         self.matcher = matcher
 
     def build_description(self, transformation):
-        transformation.negative = True
-        return self.matcher.build_description(transformation)
+        # do not alter the transformation passed by the caller: it is shared with sibling matchers
+        return self.matcher.build_description(
+            MatcherDescriptionTransformer(transformation.conjugate, not transformation.negative)
+        )
 
     def matches(self, actual):
         result = self.matcher.matches(actual)
